@@ -2,7 +2,8 @@
 (* M-spec for C11: implementation-shaped model of distsys/resources/twopc.go.          *)
 (* One action per lock region / linearization point of the Go code:                     *)
 (*   Read, Write            ReadValue / WriteValue                                      *)
-(*   PCStart                PreCommit: back-off check + doPreCommit up to the broadcast *)
+(*   PCCall, PCStart        PreCommit: the call; back-off check + doPreCommit up to the *)
+(*                          broadcast                                                    *)
 (*   Deliver / DropReq / DropResp / Dup   the ReplicaHandle (Receive + receiveInternal) *)
 (*   Release                a response reaches the proposer's broadcast goroutine        *)
 (*   Wake                   an Abort/Commit goroutine re-checks shouldRetry after error  *)
@@ -17,7 +18,8 @@
 (* The repaired protocol is ValueEq = TRUE, Filter = TRUE on both transports.            *)
 EXTENDS Integers, Sequences, FiniteSets, TLC
 
-CONSTANTS Nodes, Writers, MaxSect, MaxVer, DropBudget, DupBudget, Filter, ValueEq, SoloTries
+CONSTANTS Nodes, Writers, MaxSect, MaxVer, DropBudget, DupBudget, Filter, ValueEq, SoloTries,
+          SplitPC       \* TRUE: the call of PreCommit and the doPreCommit region are separate steps (back-off sleep)
 
 VARIABLES value, oldValue, version, cs, tpc, acc, stimes, attempts, clock,   \* per node (Go fields)
           op, need, rem, bc, ov, sect,                                      \* per node: proposer control state
@@ -107,8 +109,18 @@ Write(p) ==
   /\ UNCHANGED <<oldValue, version, cs, tpc, acc, stimes, attempts, clock, need, rem, bc, ov, sect, netvars,
                  ghostvars, solovars>>
 
+(* PreCommit() returns a channel at once; its goroutine sleeps (exponential back-off) before the doPreCommit   *)
+(* region. While it sleeps the node behaves exactly as inside the section ("pcsleep" differs from "insect"   *)
+(* only in that the section can no longer be given up), so exhaustive runs merge the two steps (SplitPC =   *)
+(* FALSE); trace validation needs them apart.                                                                *)
+PCCall(p) ==
+  /\ SplitPC /\ op[p] = "insect"
+  /\ op' = [op EXCEPT ![p] = "pcsleep"]
+  /\ act' = <<"pccall", p>>
+  /\ UNCHANGED <<nodevars, need, rem, bc, ov, sect, netvars, ghostvars, solovars>>
+
 PCStart(p) ==
-  /\ op[p] = "insect"
+  /\ op[p] = (IF SplitPC THEN "pcsleep" ELSE "insect")
   /\ IF Failed(cs[p]) \/ tpc[p] = "accepted"
        THEN /\ op' = [op EXCEPT ![p] = "failed"]
             /\ act' = <<"pcstart", p, 0, 0>>
@@ -335,7 +347,7 @@ GoSolo(p) ==
   /\ UNCHANGED <<nodevars, ctlvars, netvars, ghostvars>>
 
 Next ==
-  \/ \E p \in Writers : Read(p) \/ Write(p) \/ PCStart(p) \/ PCDecide(p) \/ RollbackDone(p)
+  \/ \E p \in Writers : Read(p) \/ Write(p) \/ PCCall(p) \/ PCStart(p) \/ PCDecide(p) \/ RollbackDone(p)
                         \/ AbortCall(p) \/ AbortDone(p) \/ CommitStart(p) \/ CommitDone(p) \/ GoSolo(p)
   \/ \E m \in reqs : Deliver(m) \/ DropReq(m) \/ DropResp(m) \/ Dup(m) \/ Wake(m)
   \/ \E r \in resps : Release(r)
